@@ -179,7 +179,9 @@ pub (crate) fn bid128_div(x: &BID_UINT128, y: &BID_UINT128, rnd_mode: RoundingMo
         (CQ, CR) = bid___div_128_by_128(&CX, &CY);
 
         if CR.w[1] == 0 && CR.w[0] == 0 {
-            res = bid_get_BID128(sign_x ^ sign_y, diff_expon, &CQ, rnd_mode, pfpsf);
+            let mut local_fpsf: _IDEC_flags = StatusFlags::BID_EXACT_STATUS;
+            res = bid_get_BID128(sign_x ^ sign_y, diff_expon, &CQ, rnd_mode, &mut local_fpsf);
+            *pfpsf |= local_fpsf;
             return res;
         }
 
@@ -371,7 +373,9 @@ pub (crate) fn bid128_div(x: &BID_UINT128, y: &BID_UINT128, rnd_mode: RoundingMo
                 diff_expon += nzeros;
             }
         }
-        res = bid_get_BID128(sign_x ^ sign_y, diff_expon, &CQ, rnd_mode, pfpsf);
+        let mut local_fpsf: _IDEC_flags = StatusFlags::BID_EXACT_STATUS;
+        res = bid_get_BID128(sign_x ^ sign_y, diff_expon, &CQ, rnd_mode, &mut local_fpsf);
+        *pfpsf |= local_fpsf;
         return res;
     }
 
@@ -431,7 +435,9 @@ pub (crate) fn bid128_div(x: &BID_UINT128, y: &BID_UINT128, rnd_mode: RoundingMo
         return res;
     }
 
-    res = bid_get_BID128(sign_x ^ sign_y, diff_expon, &CQ, rnd_mode, pfpsf);
+    let mut local_fpsf: _IDEC_flags = StatusFlags::BID_EXACT_STATUS;
+    res = bid_get_BID128(sign_x ^ sign_y, diff_expon, &CQ, rnd_mode, &mut local_fpsf);
+    *pfpsf |= local_fpsf;
 
     res
 }
